@@ -1,7 +1,11 @@
 From Coq Require Import Extraction ExtrOcamlBasic ExtrOcamlString.
-From Oras Require Import Base.Prelude Generated.GC04 Model.CopySpec Model.CopyTop Model.CopyOpt.
+From Oras Require Import Base.Prelude Generated.GC04 Model.CopySpec Model.CopyTop Model.CopyOpt Model.CopyHold.
 Extraction Language OCaml.
 (* effective concurrency with the default re-read from copy.go *)
 Definition eff_K_gen : Z -> nat := eff_K defaultConcurrency.
+(* C04's runner replays every recorded trace on the permit-holding overlay (Model/CopyHold.v): the
+   driver ml/c01_main.ml calls [step_opt], which here is the overlay's step (a waiting leaf holds its
+   permit; holders < K at every acquisition) -- accepted by it implies accepted by CopySpec *)
+Definition step_opt := step_opt_h.
 Extraction "xc04.ml" step step_opt init copy_result present_nodes inflight_src inflight_dst active eff_K_gen
-  eff_ref prologue select_manifest N.of_nat N.to_nat.
+  eff_ref prologue select_manifest N.of_nat N.to_nat holders.
